@@ -88,14 +88,15 @@ def _seed_net(spec):
             s.c0 = nn.Conv2d(3, C, 3, padding=1)
             s.bn0 = nn.BatchNorm2d(C)
             s.c1 = nn.Conv2d(3, C + 1, 1)
-            s.c2 = nn.Conv2d(2 * C + 1 + 3, C, 3, padding=1)
+            s.cx = nn.Conv2d(3, 4, 1)          # excluded from the search: a second fixed-width operand
+            s.c2 = nn.Conv2d(2 * C + 1 + 3 + 4, C, 3, padding=1)
             s.pool = nn.AvgPool2d(2)
             s.fc = nn.Linear(C * 16, 3)
 
         def forward(s, x):
             a = F.relu(s.bn0(s.c0(x)))
             b = F.relu(s.c1(x))
-            y = torch.cat((a, x, b), dim=1)
+            y = torch.cat((a, x, s.cx(x), b), dim=1)
             y = F.relu(s.c2(y))
             return s.fc(s.pool(y).flatten(1))
 
@@ -142,7 +143,7 @@ def build(spec, seednet=None):
     cost = cost_specs(spec, 0)
     if METHOD[kind] == 'pit':
         w = PIT(net, input_shape=shape, cost=cost, full_cost=spec['full_cost'],
-                discrete_cost=spec['discrete_cost'])
+                discrete_cost=spec['discrete_cost'], exclude_names=('cx',) if kind == 'pitcat' else ())
     elif METHOD[kind] == 'mps':
         per_ch = kind == 'mpsc'
         w = MPS(net, input_shape=shape, cost=cost, full_cost=spec['full_cost'],
